@@ -9,6 +9,7 @@ package main
 import (
 	"context"
 	"fmt"
+	"runtime"
 	"sync"
 	"time"
 
@@ -211,7 +212,7 @@ func main() {
 	opsAll := make([][]recvdrv.Op, len(words))
 	jobs := make(chan job)
 	var wg sync.WaitGroup
-	for w := 0; w < 48; w++ {
+	for w := 0; w < 2*runtime.NumCPU(); w++ {
 		wg.Add(1)
 		go func() {
 			defer wg.Done()
